@@ -33,6 +33,7 @@ const (
 	ContinentA           // geo-marked, all inside one continent prefix (fd10::/12)
 	ContinentB           // geo-marked, all inside another continent prefix (fd40::/12)
 	SameLabel            // geo-marked, all with the same derived one-byte switch label (42)
+	RegionStart          // geo-marked, in a country prefix that begins at the first address of its region
 )
 
 var (
@@ -60,6 +61,8 @@ func kindName(k Kind) string {
 		return "routable"
 	case Privacy:
 		return "privacy"
+	case RegionStart:
+		return "region-start"
 	case SameLabel:
 		return "same-label"
 	case ContinentA:
@@ -77,6 +80,16 @@ func accept(k Kind, ip netip.Addr) bool {
 		return m.GetAddressType(ip) == m.TypeGeoMarked
 	case Privacy:
 		return m.GetAddressType(ip) == m.TypePrivacy
+	case RegionStart:
+		if m.GetAddressType(ip) != m.TypeGeoMarked {
+			return false
+		}
+		marker, err := m.LookupCountryMarker(ip)
+		if err != nil || marker == nil {
+			return false
+		}
+		region, _ := ip.Prefix(m.RegionPrefixBits)
+		return marker.Prefix.Masked().Addr() == region.Addr() && marker.Prefix.Bits() > m.RegionPrefixBits
 	case SameLabel:
 		l, ok := m.DeriveSwitchLabelFromIP(ip)
 		return m.GetAddressType(ip) == m.TypeGeoMarked && ok && l == 42
